@@ -1,6 +1,8 @@
 import YaqsModel.Props.C01
 import YaqsModel.Lemmas.Dissipation
 import YaqsModel.Lemmas.AccumulateEnsemble
+import YaqsModel.Lemmas.AccumulateCircuit
+import YaqsModel.Lemmas.FlowStability
 
 /-!
 # C03 — noisy circuit trajectories average to ideal gates plus local Lindblad noise  (placement + lottery part)
@@ -858,3 +860,244 @@ example : IsEnsemble ([(1, cxPsi)] : Ens (Fin 2)) ∧ ensState ([(1, cxPsi)] : E
   exact ⟨zero_le_one, by simp [cxPsi, dotProduct, Fin.sum_univ_two]⟩
 
 end Yaqs.Consistency
+
+/-!
+# C03, extension 3 — accumulation through a circuit: an ideal gate layer `G_k` before every noise step
+
+`c03_first_order_global` has one fixed exact one-step map.  In `digital_tjm` the state is conjugated by the ideal gate layer
+between two noise steps, and the layer changes from step to step: exact reference `ρ_{k+1} = exp(s𝓛)(G_k ρ_k G_k†)`
+(`circuitRef`), scheme: apply `G_k` to every ensemble member (`ensGate`), then the noise lottery (`ensStep`).  The fan is used
+with the step-dependent linear maps `F_k = exp(s𝓛) ∘ (G_k · G_k†)` (`Lemmas/AccumulateCircuit.lean::ens_global_circuit`).  The
+gate conjugation must not expand the seminorm; in the Frobenius seminorm it is an isometry (`c03_frob_gate_invariant`).
+
+Status of the hypotheses of `c03_first_order_global_circuit`:
+  THEOREMS    — `‖X‖_F² = Σ|x_ij|² = re tr(X†X)` and `‖UXU†‖_F = ‖X‖_F` for `U†U = 1` (`c03_frob_gate_invariant`); the state of the
+                gate-conjugated ensemble is the conjugated state and the gate keeps it an ensemble (`c03_gate_on_ensemble`);
+                linearity of the one-layer exact map; the accumulation itself.  The gate layers enter neither the growth
+                factor nor the local error: the bound is the one of `c03_first_order_global`.
+  ASSUMPTIONS — (a) every `G_k` is unitary (`G_k†G_k = 1`; a hypothesis on the input, met by every gate layer of a circuit);
+                (b) *uniformity* of the local constant `C` over all unit vectors, now in the Frobenius seminorm (the pointwise
+                shape `C·s²` is `c03_local_error_quadratic`; max-entry and Frobenius norms differ by at most the factor `d`);
+                (c) the stability constant `K` of `exp(s𝓛)` in the Frobenius seminorm (finite for every `𝓛`; `K = 0` for unital
+                noise such as Pauli channels — not proved here); (d) `ensState (ens (k+1)) = ensStep … (ensGate (G_k) (ens k))`
+                is taken as the definition of the ensemble sequence (`c01_lottery_expectation` member by member).
+-/
+namespace Yaqs.Consistency
+
+open Matrix NormedSpace Yaqs.MasterEq
+
+variable {n : Type} [Fintype n] [DecidableEq n]
+
+/-- **C03.9a `c03_frob_gate_invariant`** (the norm in which ideal gate layers are free) `frobSeminorm` is a seminorm on matrices
+    with `‖X‖_F² = Σ_{ij}|x_ij|² = re tr(X†X)`, and conjugation by any `U` with `U†U = 1` preserves it: `‖U X U†‖_F = ‖X‖_F`
+    (trace cyclicity).  On a finite index type `U†U = 1` is the same as `UU† = 1`; only the former is used. -/
+theorem c03_frob_gate_invariant (X : Matrix n n ℂ) :
+    frobSeminorm X ^ 2 = ∑ i, ∑ j, ‖X i j‖ ^ 2
+    ∧ frobSeminorm X ^ 2 = (trace (Xᴴ * X)).re
+    ∧ ∀ U : Matrix n n ℂ, Uᴴ * U = 1 → frobSeminorm (U * X * Uᴴ) = frobSeminorm X :=
+  ⟨frobSeminorm_sq X, frobSeminorm_sq_trace X, fun U hU => frob_conj_unitary U X hU⟩
+
+/-- **C03.9b `c03_gate_on_ensemble`** (the gate layer on the trajectory ensemble) applying `G` to every member, `ψ_i ↦ Gψ_i`
+    with unchanged weights, gives the ensemble of the conjugated state, `Σ w_i (Gψ_i)(Gψ_i)† = G (Σ w_i ψ_iψ_i†) G†` (any `G`),
+    and for `G†G = 1` it is again an ensemble of unit vectors with weights summing to one. -/
+theorem c03_gate_on_ensemble (G : Matrix n n ℂ) (ens : Ens n) :
+    ensState (ensGate G ens) = G * ensState ens * Gᴴ
+    ∧ (Gᴴ * G = 1 → IsEnsemble ens → IsEnsemble (ensGate G ens)) :=
+  ⟨ensState_gate G ens, fun hG h => isEnsemble_gate G hG ens h⟩
+
+/-- **C03.9c `c03_first_order_global_circuit_of_invariant`** (circuit form, any unitarily invariant seminorm) `N` a seminorm in
+    which conjugation by the gate layers does not expand (`N (G_k M G_k†) ≤ N M`: Frobenius — next theorem —, trace norm,
+    operator norm).  Ensemble sequence: `ensState (ens (k+1)) = ensStep Ls (A s) (ensGate (G_k) (ens k))` (gate on every member,
+    then noise lottery); exact reference `circuitRef`: `ρ_0 = ρ₀`, `ρ_{k+1} = exp(s𝓛)(G_k ρ_k G_k†)`.  If every `G_k` is
+    unitary, the one-step local error is `≤ C·s²` in `N` for every unit vector and `exp(s𝓛)` is `(1+K·s)`-stable in `N`, then after
+    `m` layers, `T = m·s` the total noise time, the trajectory average is within `e^{K·T}(N(initial discrepancy) + C·T·s)` of
+    the exact reference — `O(s)` for fixed `T`. -/
+theorem c03_first_order_global_circuit_of_invariant (N : Seminorm ℝ (Matrix n n ℂ)) (H : Matrix n n ℂ)
+    (Ls : List (Proc (Matrix n n ℂ))) (A : ℝ → Matrix n n ℂ) (G : ℕ → Matrix n n ℂ) (s K C T : ℝ)
+    (hK : 0 ≤ K) (hs : 0 ≤ s) (hC : 0 ≤ C) (m : ℕ) (hT : m * s = T)
+    (ens : ℕ → Ens n) (ρ₀ : Matrix n n ℂ)
+    (hG : ∀ k < m, (G k)ᴴ * G k = 1)
+    (hinv : ∀ k < m, ∀ M, N (G k * M * (G k)ᴴ) ≤ N M)
+    (hens : ∀ k < m, IsEnsemble (ens k))
+    (hstep : ∀ k < m, ensState (ens (k + 1)) = ensStep Ls (A s) (ensGate (G k) (ens k)))
+    (hloc : ∀ ψ : n → ℂ, star ψ ⬝ᵥ ψ = 1 →
+      N (pureAverage Ls (A s *ᵥ ψ) - lindFlow H Ls s (vecMulVec ψ (star ψ))) ≤ C * s ^ 2)
+    (hstab : ∀ M, N (lindFlow H Ls s M) ≤ (1 + K * s) * N M) :
+    N (ensState (ens m) - circuitRef H Ls s G ρ₀ m)
+      ≤ Real.exp (K * T) * (N (ensState (ens 0) - ρ₀) + C * T * s)
+    ∧ (ensState (ens 0) = ρ₀ → N (ensState (ens m) - circuitRef H Ls s G ρ₀ m) ≤ (Real.exp (K * T) * C * T) * s) := by
+  have h := ens_global_circuit N (lindFlow H Ls s : Matrix n n ℂ →ₗ[ℝ] Matrix n n ℂ) Ls (A s) G s K C hK hs hC m ens
+    (circuitRef H Ls s G ρ₀) hG hinv hens hstep (fun k _ => rfl) hloc hstab
+  have h' : N (ensState (ens m) - circuitRef H Ls s G ρ₀ m)
+      ≤ Real.exp (K * T) * (N (ensState (ens 0) - ρ₀) + C * T * s) := by
+    have := h
+    simp only [hT] at this
+    exact this
+  refine ⟨h', fun h0 => ?_⟩
+  rw [h0, sub_self, map_zero, zero_add] at h'
+  refine h'.trans (le_of_eq ?_)
+  ring
+
+/-- **C03.9 `c03_first_order_global_circuit`** (the trajectory average through a whole circuit is first-order accurate, Frobenius
+    norm) The previous theorem with `N = ‖·‖_F`: the invariance hypothesis is discharged by `c03_frob_gate_invariant`, so what
+    remains is: every gate layer `G_k` unitary, local error `≤ C·s²` in `‖·‖_F` for every unit vector, `exp(s𝓛)`
+    `(1+K·s)`-stable in `‖·‖_F`.  Conclusion: after `m` layers `‖(trajectory average) − ρ_m‖_F ≤ e^{K·m·s}(‖initial discrepancy‖_F +
+    C·m·s²)`, i.e. `≤ e^{K·T}·C·T·s = O(s)` at fixed total noise time `T = m·s` when the ensemble starts at `ρ₀`.  The gate
+    layers appear nowhere in the bound. -/
+theorem c03_first_order_global_circuit (H : Matrix n n ℂ) (Ls : List (Proc (Matrix n n ℂ))) (A : ℝ → Matrix n n ℂ)
+    (G : ℕ → Matrix n n ℂ) (s K C T : ℝ) (hK : 0 ≤ K) (hs : 0 ≤ s) (hC : 0 ≤ C) (m : ℕ) (hT : m * s = T)
+    (ens : ℕ → Ens n) (ρ₀ : Matrix n n ℂ)
+    (hG : ∀ k < m, (G k)ᴴ * G k = 1)
+    (hens : ∀ k < m, IsEnsemble (ens k))
+    (hstep : ∀ k < m, ensState (ens (k + 1)) = ensStep Ls (A s) (ensGate (G k) (ens k)))
+    (hloc : ∀ ψ : n → ℂ, star ψ ⬝ᵥ ψ = 1 →
+      frobSeminorm (pureAverage Ls (A s *ᵥ ψ) - lindFlow H Ls s (vecMulVec ψ (star ψ))) ≤ C * s ^ 2)
+    (hstab : ∀ M, frobSeminorm (lindFlow H Ls s M) ≤ (1 + K * s) * frobSeminorm M) :
+    frobSeminorm (ensState (ens m) - circuitRef H Ls s G ρ₀ m)
+      ≤ Real.exp (K * T) * (frobSeminorm (ensState (ens 0) - ρ₀) + C * T * s)
+    ∧ (ensState (ens 0) = ρ₀ →
+        frobSeminorm (ensState (ens m) - circuitRef H Ls s G ρ₀ m) ≤ (Real.exp (K * T) * C * T) * s) :=
+  c03_first_order_global_circuit_of_invariant frobSeminorm H Ls A G s K C T hK hs hC m hT ens ρ₀ hG
+    (fun k hk M => le_of_eq (frob_conj_unitary (G k) M (hG k hk))) hens hstep hloc hstab
+
+/-- **C03.9e `c03_circuit_ref_no_gates`** (consistency with `c03_first_order_global`) with identity gate layers the exact circuit
+    reference is the Lindblad solution sampled on the grid, `ρ_m = exp((m·s)𝓛)ρ₀`, so `c03_first_order_global_circuit` with
+    `G_k = 1` is `c03_first_order_global` in the Frobenius seminorm. -/
+theorem c03_circuit_ref_no_gates (H : Matrix n n ℂ) (Ls : List (Proc (Matrix n n ℂ))) (s : ℝ) (ρ₀ : Matrix n n ℂ) (m : ℕ) :
+    circuitRef H Ls s (fun _ => 1) ρ₀ m = lindFlow H Ls (m * s) ρ₀ :=
+  lindFlow_grid H Ls s (circuitRef H Ls s (fun _ => 1) ρ₀) m (fun k _ => by simp [circuitRef])
+
+/-- instance: two identity layers over the noise processes of the C01 example, scale `1/10` -/
+example (ρ : Matrix (Fin 2) (Fin 2) ℂ) :
+    circuitRef 0 cxProcs (1 / 10) (fun _ => 1) ρ 2 = lindFlow 0 cxProcs ((2 : ℕ) * (1 / 10)) ρ :=
+  c03_circuit_ref_no_gates 0 cxProcs (1 / 10) ρ 2
+
+/-! non-vacuity: one qubit, gate layers alternating `X` (even `k`) and the Hadamard gate `H = (1/√2)[[1,1],[1,−1]]` (odd `k`) -/
+
+/-- `1/√2` as a complex number -/
+noncomputable def cxR : ℂ := (((Real.sqrt 2)⁻¹ : ℝ) : ℂ)
+/-- the Hadamard gate -/
+noncomputable def cxHad : Matrix (Fin 2) (Fin 2) ℂ := !![cxR, cxR; cxR, -cxR]
+/-- the gate layers `X, H, X, H, …` -/
+noncomputable def cxGate (k : ℕ) : Matrix (Fin 2) (Fin 2) ℂ := if k % 2 = 0 then cxX else cxHad
+/-- the ensemble that starts as `{(1, |1⟩)}` and receives the gate layers -/
+noncomputable def cxEns : ℕ → Ens (Fin 2)
+  | 0 => [(1, cxPsi)]
+  | k + 1 => ensGate (cxGate k) (cxEns k)
+
+/-- **C03.9d `c03_example_gates_unitary`** (non-vacuity of hypothesis (a); a named theorem only so that the instance below can
+    use it) every layer of the example sequence `X, H, X, H, …` is unitary: `G_k†G_k = 1 = G_kG_k†` for all `k`. -/
+theorem c03_example_gates_unitary (k : ℕ) : (cxGate k)ᴴ * cxGate k = 1 ∧ cxGate k * (cxGate k)ᴴ = 1 := by
+  have hr : cxR * cxR = 1 / 2 := by
+    unfold cxR
+    rw [← Complex.ofReal_mul, ← mul_inv, Real.mul_self_sqrt (by norm_num)]
+    norm_num
+  have hs : star cxR = cxR := by unfold cxR; exact Complex.conj_ofReal _
+  have hX : cxXᴴ = cxX := by ext i j; fin_cases i <;> fin_cases j <;> simp [cxX, conjTranspose_apply]
+  have hH : cxHadᴴ = cxHad := by
+    ext i j; fin_cases i <;> fin_cases j <;> simp [cxHad, conjTranspose_apply, hs]
+  have hXX : cxX * cxX = 1 := by
+    ext i j; fin_cases i <;> fin_cases j <;> simp [cxX, Matrix.mul_apply, Fin.sum_univ_two]
+  have hHH : cxHad * cxHad = 1 := by
+    ext i j; fin_cases i <;> fin_cases j <;> simp [cxHad, Matrix.mul_apply, Fin.sum_univ_two, hr] <;> norm_num
+  unfold cxGate
+  split <;> simp [hX, hH, hXX, hHH]
+
+/-- the gate layer `X` on the one-member ensemble `{(1, |1⟩)}`: again an ensemble, with state `X|1⟩⟨1|X† = |0⟩⟨0|`, and the
+    Frobenius distance to any matrix is unchanged by the layer -/
+example (M : Matrix (Fin 2) (Fin 2) ℂ) :
+    ensState (ensGate cxX [(1, cxPsi)]) = vecMulVec ![1, 0] (star ![1, 0])
+    ∧ frobSeminorm (cxX * M * cxXᴴ) = frobSeminorm M := by
+  have hXX : cxXᴴ * cxX = 1 := by
+    ext i j; fin_cases i <;> fin_cases j <;> simp [cxX, Matrix.mul_apply, Fin.sum_univ_two, conjTranspose_apply]
+  refine ⟨?_, frob_conj_unitary cxX M hXX⟩
+  have hv : cxX *ᵥ cxPsi = ![1, 0] := by
+    ext i; fin_cases i <;> simp [cxX, cxPsi, Matrix.mulVec, dotProduct, Fin.sum_univ_two]
+  simp only [ensState, ensGate, List.map_cons, List.map_nil, List.sum_cons, List.sum_nil, add_zero, hv]
+  exact one_smul ℝ _
+
+/-- all hypotheses of `c03_first_order_global_circuit` met at once, for every number of layers `m` and every scale `s ≥ 0`, with
+    the non-trivial gate sequence `X, H, X, H, …`: the noise-free instance (`H = 0`, no processes, no-jump propagator `1`, so the
+    local-error and stability hypotheses hold with `C = K = 0`).  The theorem then says that the ensemble `cxEns` follows the
+    ideal circuit exactly: its Frobenius distance to `circuitRef` (= `G_{m-1}…G_0 |1⟩⟨1| G_0†…G_{m-1}†`) is `0`. -/
+example (m : ℕ) (s : ℝ) (hs : 0 ≤ s) :
+    frobSeminorm (ensState (cxEns m) - circuitRef 0 [] s cxGate (vecMulVec cxPsi (star cxPsi)) m) ≤ 0 := by
+  have hG : ∀ k, (cxGate k)ᴴ * cxGate k = 1 := fun k => (c03_example_gates_unitary k).1
+  have h0 : IsEnsemble ([(1, cxPsi)] : Ens (Fin 2)) := by
+    refine ⟨?_, by simp⟩
+    intro e he
+    simp only [List.mem_singleton] at he
+    subst he
+    exact ⟨zero_le_one, by simp [cxPsi, dotProduct, Fin.sum_univ_two]⟩
+  have hens : ∀ k, IsEnsemble (cxEns k) := by
+    intro k
+    induction k with
+    | zero => exact h0
+    | succ k ih => exact isEnsemble_gate _ (hG k) _ ih
+  have h := (c03_first_order_global_circuit 0 [] (fun _ => 1) cxGate s 0 0 (m * s) le_rfl hs le_rfl m rfl cxEns
+    (vecMulVec cxPsi (star cxPsi)) (fun k _ => hG k) (fun k _ => hens k)
+    (fun k _ => by rw [ensStep_nil]; rfl)
+    (fun ψ _ => by rw [pureAverage_nil, lindFlow_nil]; simp)
+    (fun M => by rw [lindFlow_nil]; simp)).2 (by simp [cxEns, ensState])
+  simpa using h
+
+end Yaqs.Consistency
+
+
+/-!
+# C03/C01, extension 4 — the stability hypothesis discharged in the operator norm
+
+`c03_first_order_global` asks for a stability constant `K` of the exact flow `exp(dt𝓛)` in the chosen seminorm (assumption (b) of
+extension 2).  In the operator norm of matrices (`Matrix.Norms.Operator`, the norm in which `lindFlow` is defined as an exponential
+of bounded operators) it is a theorem: `‖exp X‖ ≤ e^{‖X‖}` term by term in the power series (`norm_exp_le_exp_norm`), hence
+`‖exp(dt𝓛)M‖ ≤ e^{dt‖𝓛‖}‖M‖ ≤ (1 + 2‖𝓛‖·dt)‖M‖` whenever `dt·‖𝓛‖ ≤ 1` (`lindFlow_stable`), i.e. `K = 2‖𝓛‖`.
+What is left as an assumption is (a) the uniformity of the local constant `C` over the unit vectors and (c) the definition of the
+ensemble sequence.
+-/
+namespace Yaqs.Accumulate
+
+open Matrix Yaqs.MasterEq Yaqs.Consistency
+open scoped Matrix.Norms.Operator
+
+variable {n : Type} [Fintype n] [DecidableEq n]
+
+set_option backward.isDefEq.respectTransparency false in
+/-- **C03.10 `c03_flow_stable`** the exact Lindblad flow is stable with the explicit constant `2‖𝓛‖`: for `0 ≤ dt`, `dt·‖𝓛‖ ≤ 1`,
+    `‖exp(dt𝓛)M‖ ≤ (1 + 2‖𝓛‖·dt)·‖M‖`, and for every `t ≥ 0` `‖exp(t𝓛)M‖ ≤ e^{t‖𝓛‖}·‖M‖` (operator norm of matrices). -/
+theorem c03_flow_stable (H : Matrix n n ℂ) (Ls : List (Proc (Matrix n n ℂ))) (M : Matrix n n ℂ) :
+    (∀ t : ℝ, 0 ≤ t → ‖lindFlow H Ls t M‖ ≤ Real.exp (t * ‖lindCLM H Ls‖) * ‖M‖) ∧
+    (∀ dt : ℝ, 0 ≤ dt → dt * ‖lindCLM H Ls‖ ≤ 1 → ‖lindFlow H Ls dt M‖ ≤ (1 + (2 * ‖lindCLM H Ls‖) * dt) * ‖M‖) :=
+  ⟨fun t ht => lindFlow_norm_le H Ls t ht M, fun dt hdt hs => lindFlow_stable H Ls dt hdt hs M⟩
+
+set_option backward.isDefEq.respectTransparency false in
+/-- **C03.10a `c03_first_order_global_opnorm`** `c03_first_order_global` in the operator norm with the stability hypothesis
+    discharged (`K = 2‖𝓛‖`): under a local error `≤ C·dt²` for every unit vector and `dt·‖𝓛‖ ≤ 1`, the trajectory average after
+    `m` steps, `T = m·dt`, is within `e^{2‖𝓛‖T}·(‖initial discrepancy‖ + C·T·dt)` of the Lindblad solution `exp(T𝓛)ρ₀`. -/
+theorem c03_first_order_global_opnorm (H : Matrix n n ℂ) (Ls : List (Proc (Matrix n n ℂ)))
+    (A : ℝ → Matrix n n ℂ) (dt C T : ℝ) (hdt : 0 ≤ dt) (hC : 0 ≤ C) (m : ℕ) (hT : m * dt = T)
+    (hsmall : dt * ‖lindCLM H Ls‖ ≤ 1)
+    (ens : ℕ → Ens n) (ρ₀ : Matrix n n ℂ)
+    (hens : ∀ k < m, IsEnsemble (ens k))
+    (hstep : ∀ k < m, ensState (ens (k + 1)) = ensStep Ls (A dt) (ens k))
+    (hloc : ∀ ψ : n → ℂ, star ψ ⬝ᵥ ψ = 1 →
+      ‖pureAverage Ls (A dt *ᵥ ψ) - lindFlow H Ls dt (vecMulVec ψ (star ψ))‖ ≤ C * dt ^ 2) :
+    ‖ensState (ens m) - lindFlow H Ls T ρ₀‖
+      ≤ Real.exp (2 * ‖lindCLM H Ls‖ * T) * (‖ensState (ens 0) - ρ₀‖ + C * T * dt) :=
+  (c03_first_order_global (normSeminorm ℝ (Matrix n n ℂ)) H Ls A dt (2 * ‖lindCLM H Ls‖) C T
+    (mul_nonneg zero_le_two (norm_nonneg _)) hdt hC m hT ens ρ₀ hens hstep hloc
+    (fun M => lindFlow_stable H Ls dt hdt hsmall M)).1
+
+set_option backward.isDefEq.respectTransparency false in
+/-- non-vacuity: with no Hamiltonian and no processes the Lindbladian is `0`, every `dt ≥ 0` meets `dt·‖𝓛‖ ≤ 1`, and the stability
+    bound reads `‖M‖ ≤ ‖M‖` -/
+example (M : Matrix (Fin 2) (Fin 2) ℂ) (dt : ℝ) (hdt : 0 ≤ dt) :
+    ‖lindFlow (0 : Matrix (Fin 2) (Fin 2) ℂ) [] dt M‖ ≤ ‖M‖ := by
+  have hz : lindCLM (0 : Matrix (Fin 2) (Fin 2) ℂ) [] = 0 := by
+    ext ρ i j
+    rw [lindCLM_apply, lind_eq]
+    simp [genK, jumpSum, gammaSum]
+  have h0 : ‖lindCLM (0 : Matrix (Fin 2) (Fin 2) ℂ) []‖ = 0 := by rw [hz, norm_zero]
+  have h := (c03_flow_stable (0 : Matrix (Fin 2) (Fin 2) ℂ) [] M).2 dt hdt (by rw [h0]; simp)
+  simpa [h0] using h
+
+end Yaqs.Accumulate
